@@ -289,17 +289,43 @@ class RefInternal:
 # ------------------------------------------------------------------------------------------------
 
 
-def _to_sparse(dense, fmt):
+def _to_sparse(dense, fmt, style=None):
+    """style None: canonical matrix without stored zeros.  "zeros": every entry is stored, exact zeros
+    included (a fixed sparsity pattern).  "dup": every non-zero entry is stored twice as v/2 + v/2
+    (term-by-term assembly); duplicates are kept un-summed in all three formats."""
     import scipy.sparse as sps
 
-    M = sps.coo_matrix(np.asarray(dense, dtype=float))
+    D = np.asarray(dense, dtype=float)
+    if style is None:
+        M = sps.coo_matrix(D)
+        if fmt == "coo":
+            return M
+        if fmt == "csr":
+            return M.tocsr()
+        if fmt == "csc":
+            return M.tocsc()
+        raise ValueError(fmt)
+    r, c = D.shape
+    rows, cols, data = [], [], []
+    order = [(i, j) for i in range(r) for j in range(c)] if fmt != "csc" else [(i, j) for j in range(c) for i in range(r)]
+    for i, j in order:
+        v = D[i, j]
+        if style == "zeros":
+            rows.append(i), cols.append(j), data.append(v)
+        elif v != 0.0:
+            rows += [i, i]
+            cols += [j, j]
+            data += [v / 2.0, v / 2.0]
+    rows, cols, data = np.array(rows, dtype=np.int32), np.array(cols, dtype=np.int32), np.array(data, dtype=float)
     if fmt == "coo":
-        return M
+        return sps.coo_matrix((data, (rows, cols)), shape=(r, c))
     if fmt == "csr":
-        return M.tocsr()
-    if fmt == "csc":
-        return M.tocsc()
-    raise ValueError(fmt)
+        indptr = np.zeros(r + 1, dtype=np.int32)
+        np.add.at(indptr, rows + 1, 1)
+        return sps.csr_matrix((data, cols, np.cumsum(indptr).astype(np.int32)), shape=(r, c))
+    indptr = np.zeros(c + 1, dtype=np.int32)
+    np.add.at(indptr, cols + 1, 1)
+    return sps.csc_matrix((data, rows, np.cumsum(indptr).astype(np.int32)), shape=(r, c))
 
 
 def make_user_problem(spec, fmt=None, policy=None):
@@ -315,6 +341,8 @@ def make_user_problem(spec, fmt=None, policy=None):
     policy = dict(policy or spec.get("policy") or {})
     jac_fmt = fmt.get("jac", "coo")
     hess_fmt = fmt.get("hess", "coo")
+    jac_style = fmt.get("jac_style")
+    hess_style = fmt.get("hess_style")
 
     ref = Ref(spec)
 
@@ -358,14 +386,14 @@ def make_user_problem(spec, fmt=None, policy=None):
 
         def cons_jac(self, x):
             return self._ret(
-                "cons_jac", x.tobytes(), lambda: _to_sparse(ref.J(x), jac_fmt)
+                "cons_jac", x.tobytes(), lambda: _to_sparse(ref.J(x), jac_fmt, jac_style)
             )
 
         def lag_hess(self, x, y):
             return self._ret(
                 "lag_hess",
                 x.tobytes() + np.asarray(y).tobytes(),
-                lambda: _to_sparse(ref.H(x, y), hess_fmt),
+                lambda: _to_sparse(ref.H(x, y), hess_fmt, hess_style),
             )
 
     return UserProblem()
